@@ -23,7 +23,7 @@ def expected_decode(ty, elems, k):
     return obj_dump(ty, elems)
 
 
-def block(base, ty, elems, k, trailing=b""):
+def block(base, ty, elems, k, trailing=b"", piped=False):
     """script lines (using handles base..base+2) and an oracle over case-local line numbers"""
     o1, o2, o3, v1, v2, s = base, base + 1, base + 2, base, base + 1, base
     L = [obj_line(o1, ty, elems),
@@ -34,7 +34,7 @@ def block(base, ty, elems, k, trailing=b""):
          "vadump %d" % v1,
          "out %d" % s,
          "wva %d %d" % (s, v1),
-         ("inapp %d %d %s" % (s, s, hx(trailing))) if trailing else "inw %d %d" % (s, s),
+         ("%sinapp %d %d %s" % ("p" if piped else "", s, s, hx(trailing))) if trailing else "%sinw %d %d" % ("p" if piped else "", s, s),
          "rva %d %d" % (s, v2),
          "vadump %d" % v2,
          "varows %d" % v2,
@@ -66,7 +66,7 @@ def make_case(cid, blocks, meta):
     lines, oracles = [], []
     for (ty, elems, k, trailing) in blocks:
         off = len(lines) + 1
-        L, orc = block(1 + 3 * len(oracles), ty, elems, k, trailing)
+        L, orc = block(1 + 3 * len(oracles), ty, elems, k, trailing, piped=meta.get("dist", {}).get("piped", False))
         lines += L; oracles.append((orc, off))
 
     def oracle(c):
@@ -102,7 +102,7 @@ def cases(rng, tier):
             elems = rand_array(rng, ty if ty != 254 else 254, n, style) if ty != 254 else [bytes([rng.choice([0, 1, 255])]) for _ in range(n)]
             idx += 1
             yield make_case("b%d" % idx, [(ty, elems, k, rng.choice([b"", b"\xaa\xbb", b"\x02\x02"]))],
-                            {"dist": {"type": ty, "enc": ENC[k], "len": n, "style": style}})
+                            {"dist": {"type": ty, "enc": ENC[k], "len": n, "style": style, "piped": idx % 3 == 0}})   # every third array is read back from a stream that cannot seek
     for n in sizes:
         for k in (-3, -4, -2):
             ty = rng.choice(ALLTYPES)
